@@ -191,7 +191,10 @@ let () =
                   | Err _ -> Printf.sprintf "M:Err,sym=%s" sym
                   | Panic _ -> "PANIC"
                   | OutOfFuel -> "FUEL") in
-              Printf.sprintf "D=%s;S=%s;B=%s" d d b
+              let sm = (match simple_symbol_name (simple_parse_add_symbol hash text) h with
+                  | Some s -> Printf.sprintf "M:%s,sym=%s" (show_cps s) sym
+                  | None -> Printf.sprintf "M:None,sym=%s" sym) in
+              Printf.sprintf "D=%s;S=%s;B=%s" d sm b
             | _ -> failwith ("bad kind " ^ kind)) in
          let spec = spec_of kind text ann in
          let spec = if !f64_mismatch then (f64_mismatch := false; "F64-MODEL-DIFFERS") else spec in
